@@ -13,7 +13,7 @@ from .sparql_replay import abst, conc, guarded, _Timeout
 warnings.simplefilter("ignore")
 
 
-def build(triples, order_seed=None, relabel=None, ident=None):
+def build(triples, order_seed=None, relabel=None, ident=None, want_map=None):
     g = Graph() if ident is None else Graph(identifier=URIRef(ident))
     ts = list(triples)
     if order_seed is not None:
@@ -31,6 +31,8 @@ def build(triples, order_seed=None, relabel=None, ident=None):
         return conc(x)
     for t in ts:
         g.add((c(t[0]), c(t[1]), c(t[2])))
+    if want_map is not None:
+        want_map.update(m)
     return g
 
 
@@ -56,7 +58,13 @@ def replay(cfg, events):
             def run():
                 if op == "iso":
                     # "ident": both graphs carry the same identifier (two versions of one named graph, the default graphs of two datasets)
-                    g, h = build(e["g"], e.get("og"), ident=e.get("ident")), build(e["h"], e.get("oh"), e.get("relabel"), ident=e.get("ident"))
+                    hm = {}
+                    g, h = build(e["g"], e.get("og"), ident=e.get("ident")), build(e["h"], e.get("oh"), e.get("relabel"), ident=e.get("ident"), want_map=hm)
+                    if e.get("witness"):
+                        # h was made from g by renaming: hand the renaming to the spec (label in g -> the node that stands for it in h)
+                        rl = e.get("relabel") or {}
+                        labs = sorted({x["v"] for tr in e["g"] for x in tr if x["k"] == "bnode"})
+                        e["wit"] = [[{"k": "bnode", "v": lab}, abst(hm[rl.get(lab, lab)])] for lab in labs]
                     e["r"] = bool(isomorphic(g, h))
                     e["r_eq"] = bool(to_isomorphic(g) == to_isomorphic(h))
                     e["h"] = dump(h)
